@@ -146,6 +146,10 @@ def run(ctx):
     rng = ctx.rng
     projects = [proj.gen_project(rng, {"fk": True, "mixed": True}) for _ in range(ctx.budget(1200, 25000))]
     generic_pipeline_check(ctx, [("I18nVerif.Theorems.C08", "C08_"), ("I18nVerif.Theorems.C08Pipeline", "C08_")], projects, oracle, "C08")
+    # references over every inherits map on 4 locales x presence patterns, each locale's text taking a variable of its own: the key set of
+    # a referencing key is the one of the text it resolves to in the effective locale (judged against the model-resolved values)
+    from . import c06
+    generic_pipeline_check(ctx, [], c06.walk_family(rng, ctx.budget(400, 8000), vars=True), oracle, "C08-fallback-walk")
     probe.run_render_probe(ctx, rng, n_crates=ctx.budget(1, 3), flavours=("string",), sig_prefix="args", per_key=1)
     binp = build_parser(ctx)
     if binp is not None:
